@@ -13,26 +13,71 @@ use vengine::num::{cholesky, jacobi_eigh, matmul, Mat};
 use vengine::Obs;
 
 // ---- tolerances (each one is repeated in the evidence `assumptions`) ---------------------------
-/// |sum(weights) - 1|
-pub const WEIGHT_SUM_TOL: f64 = 1e-9;
-/// |sum(predict_proba row) - 1|
-pub const ROW_SUM_TOL: f64 = 1e-9;
-/// means may leave the bounding box by this fraction of max(|lo|,|hi|) (they are convex combinations)
-pub const BOX_REL_TOL: f64 = 1e-9;
-/// |C_ij - C_ji| <= SYM_TOL * sqrt(C_ii C_jj)
-pub const SYM_TOL: f64 = 1e-12;
-/// diag >= reg (1 - REG_REL_TOL); lambda_min >= reg (1 - REG_REL_TOL) - REG_LMAX_SLACK * lambda_max
-pub const REG_REL_TOL: f64 = 1e-9;
-pub const REG_LMAX_SLACK: f64 = 1e-11;
-/// |P C - I|_max <= PREC_TOL * p * cond(C) + PREC_TOL   (about 900 eps p cond; observed worst 2 eps p cond)
-pub const PREC_TOL: f64 = 2e-13;
-/// the predicted component's probability may be below the row maximum by at most this
-pub const ARGMAX_TOL: f64 = 1e-12;
-/// relative uncertainty of a Mahalanobis distance^2 / log-determinant recomputed from the covariance: LOGP_TOL * cond
-pub const LOGP_TOL: f64 = 1e-12;
-/// floor of the posterior comparison and of the most-probable-component margin
-pub const POSTERIOR_FLOOR: f64 = 1e-9;
-pub const MARGIN_FLOOR: f64 = 1e-6;
+// All of them are relative (to the covariance magnitude, the data range, or dimensionless), so the
+// obligations do not depend on the unit of the data.
+#[derive(Debug, Clone, Copy)]
+pub struct Tol {
+    /// |sum(weights) - 1|
+    pub weight_sum: f64,
+    /// |sum(predict_proba row) - 1|
+    pub row_sum: f64,
+    /// means may leave the bounding box by this fraction of max(|lo|,|hi|,hi-lo) (they are convex combinations)
+    pub box_rel: f64,
+    /// |C_ij - C_ji| <= sym * sqrt(C_ii C_jj)
+    pub sym: f64,
+    /// diag >= reg (1 - reg_rel); lambda_min >= reg (1 - reg_rel) - reg_lmax_slack * lambda_max
+    pub reg_rel: f64,
+    pub reg_lmax_slack: f64,
+    /// |P C - I|_max <= prec * p * cond(C) + prec   (about 900 eps p cond; observed worst 2 eps p cond)
+    pub prec: f64,
+    /// the predicted component's probability may be below the row maximum by at most this
+    pub argmax: f64,
+    /// relative uncertainty of a Mahalanobis distance^2 / log-determinant recomputed from the covariance: logp * cond
+    pub logp: f64,
+    /// floor of the posterior comparison and of the most-probable-component margin
+    pub posterior_floor: f64,
+    pub margin_floor: f64,
+    /// whole-batch and small-batch probabilities of the same row may differ by this much
+    pub batch_proba: f64,
+    /// machine epsilon of the float type
+    pub eps: f64,
+}
+
+impl Tol {
+    pub const F64: Tol = Tol {
+        weight_sum: 1e-9,
+        row_sum: 1e-9,
+        box_rel: 1e-9,
+        sym: 1e-12,
+        reg_rel: 1e-9,
+        reg_lmax_slack: 1e-11,
+        prec: 2e-13,
+        argmax: 1e-12,
+        logp: 1e-12,
+        posterior_floor: 1e-9,
+        margin_floor: 1e-6,
+        batch_proba: 1e-12,
+        eps: f64::EPSILON,
+    };
+    /// single precision (eps = 1.2e-7): the same multiples of eps where the f64 value is a multiple of
+    /// eps, a few thousand eps where the f64 value is the statement's 1e-9
+    pub const F32: Tol = Tol {
+        weight_sum: 2e-4,
+        row_sum: 1e-4,
+        box_rel: 2e-4,
+        sym: 2e-4,
+        reg_rel: 1e-6,
+        reg_lmax_slack: 1.2e-4,
+        prec: 1.1e-4,
+        argmax: 1e-12,
+        logp: 5.4e-4,
+        posterior_floor: 1e-4,
+        margin_floor: 1e-3,
+        batch_proba: 1e-5,
+        eps: f32::EPSILON as f64,
+    };
+}
+
 /// rows whose largest weighted log-density (reference) is below this are in the domain where
 /// `ln(sum(exp(.)))` without a max-shift leaves the normal float range (exp(-708.4) is the
 /// smallest normal number, exp(-745.2) rounds to 0)
@@ -75,8 +120,103 @@ impl RefComp {
     }
 }
 
-fn to_mat2(a: &ndarray::ArrayView2<f64>) -> Mat {
-    a.rows().into_iter().map(|r| r.to_vec()).collect()
+fn f<F: linfa::Float>(v: F) -> f64 {
+    v.to_f64().unwrap_or(f64::NAN)
+}
+
+fn to_mat2<F: linfa::Float>(a: &ndarray::ArrayView2<F>) -> Mat {
+    a.rows().into_iter().map(|r| r.iter().map(|v| f(*v)).collect()).collect()
+}
+
+/// The fitted model in the float type of the case; every value the oracle looks at is converted
+/// (exactly) to f64.
+pub enum Model {
+    F64(GaussianMixtureModel<f64>),
+    F32(GaussianMixtureModel<f32>),
+}
+
+pub struct ModelParams {
+    pub w: Vec<f64>,
+    pub means: Mat,
+    pub covs: Vec<Mat>,
+    pub precs: Vec<Mat>,
+    pub shapes: String,
+}
+
+fn params_of<F: linfa::Float>(m: &GaussianMixtureModel<F>) -> ModelParams {
+    ModelParams {
+        w: m.weights().iter().map(|v| f(*v)).collect(),
+        means: to_mat2(&m.means().view()),
+        covs: m.covariances().outer_iter().map(|c| to_mat2(&c)).collect(),
+        precs: m.precisions().outer_iter().map(|c| to_mat2(&c)).collect(),
+        shapes: format!(
+            "weights {:?}, means {:?}, covariances {:?}, precisions {:?}",
+            m.weights().shape(),
+            m.means().shape(),
+            m.covariances().shape(),
+            m.precisions().shape()
+        ),
+    }
+}
+
+fn rows_to_array<F: linfa::Float>(rows: &[&[f64]], p: usize) -> Option<Array2<F>> {
+    let mut flat: Vec<F> = Vec::with_capacity(rows.len() * p);
+    for r in rows {
+        for v in r.iter() {
+            flat.push(<F as num_traits::NumCast>::from(*v)?);
+        }
+    }
+    Array2::from_shape_vec((rows.len(), p), flat).ok()
+}
+
+fn proba_of<F: linfa::Float>(m: &GaussianMixtureModel<F>, rows: &[&[f64]], p: usize) -> Option<((usize, usize), Mat)> {
+    let x = rows_to_array::<F>(rows, p)?;
+    let pr = m.predict_proba(&x);
+    Some((pr.dim(), to_mat2(&pr.view())))
+}
+
+fn labels_of<F: linfa::Float>(m: &GaussianMixtureModel<F>, rows: &[&[f64]], p: usize) -> Option<Vec<usize>> {
+    let x = rows_to_array::<F>(rows, p)?;
+    Some(m.predict(&x).to_vec())
+}
+
+impl Model {
+    pub fn params(&self) -> ModelParams {
+        match self {
+            Model::F64(m) => params_of(m),
+            Model::F32(m) => params_of(m),
+        }
+    }
+    /// one `predict_proba` call on all rows; (shape, rows as f64)
+    pub fn predict_proba(&self, rows: &[&[f64]], p: usize) -> Option<((usize, usize), Mat)> {
+        match self {
+            Model::F64(m) => proba_of(m, rows, p),
+            Model::F32(m) => proba_of(m, rows, p),
+        }
+    }
+    /// one `predict` call on all rows
+    pub fn predict(&self, rows: &[&[f64]], p: usize) -> Option<Vec<usize>> {
+        match self {
+            Model::F64(m) => labels_of(m, rows, p),
+            Model::F32(m) => labels_of(m, rows, p),
+        }
+    }
+}
+
+fn fit_as<F: linfa::Float>(c: &Case, b: &Built, k: usize, max_iter: u64, n_runs: u64) -> Option<Result<GaussianMixtureModel<F>, GmmError>> {
+    let rows: Vec<&[f64]> = b.rows.iter().map(|r| r.as_slice()).collect();
+    let records = rows_to_array::<F>(&rows, b.dims)?;
+    let dataset = DatasetBase::from(records);
+    let params = GaussianMixtureModel::<F>::params_with_rng(k, Xoshiro256Plus::seed_from_u64(c.rng_seed))
+        .init_method(match c.init {
+            Init::KMeans => GmmInitMethod::KMeans,
+            Init::Random => GmmInitMethod::Random,
+        })
+        .reg_covariance(<F as num_traits::NumCast>::from(c.reg())?)
+        .tolerance(<F as num_traits::NumCast>::from(c.tol())?)
+        .n_runs(n_runs)
+        .max_n_iterations(max_iter);
+    Some(params.fit(&dataset))
 }
 
 fn classify_case(c: &Case, b: &Built, obs: &mut Obs) {
@@ -113,6 +253,17 @@ fn classify_case(c: &Case, b: &Built, obs: &mut Obs) {
     });
     obs.class(if c.tol_idx == 0 { "tol_1e-3" } else { "tol_1e-5" });
     obs.class_if(c.n_runs >= 2, "n_runs_ge_2");
+    obs.class(if c.f32 { "float_f32" } else { "float_f64" });
+    obs.class(match c.unit_exp {
+        i8::MIN..=-10 => "unit_1e-12",
+        -9..=-7 => "unit_1e-9",
+        -6..=-5 => "unit_1e-6",
+        -4..=-3 => "unit_1e-4",
+        -2..=-1 => "unit_1e-2",
+        0 => "unit_1",
+        1..=4 => "unit_1e3",
+        _ => "unit_1e6",
+    });
     obs.class_if(c.scale_idx == 1, "scale_small");
     obs.class_if(c.scale_idx >= 2, "scale_large");
     obs.class_if(c.offset_idx >= 1, "offset_nonzero");
@@ -140,7 +291,8 @@ fn err_class(e: &GmmError) -> &'static str {
 
 /// A successfully fitted model together with the reference quantities recomputed from its accessors.
 pub struct Fitted {
-    pub model: GaussianMixtureModel<f64>,
+    pub model: Model,
+    pub tol: Tol,
     pub refs: Vec<RefComp>,
     pub k: usize,
     pub p: usize,
@@ -157,6 +309,7 @@ pub struct RowOut {
 }
 
 pub fn check(c: &Case, obs: &mut Obs) {
+    let c = &c.clone().sanitised();
     let b = build(c);
     let Some(f) = fit_model(c, &b, obs) else {
         return;
@@ -187,27 +340,18 @@ pub fn fit_model(c: &Case, b: &Built, obs: &mut Obs) -> Option<Fitted> {
     classify_case(c, b, obs);
     let reg = c.reg();
 
-    let flat: Vec<f64> = b.rows.iter().flat_map(|r| r.iter().copied()).collect();
-    let records = match Array2::from_shape_vec((n, p), flat) {
-        Ok(a) => a,
-        Err(_) => {
-            obs.skip("case_malformed");
-            return None;
-        }
-    };
-    let dataset = DatasetBase::from(records.clone());
+    let tol = if c.f32 { Tol::F32 } else { Tol::F64 };
     let max_iter = c.max_iter.max(1) as u64;
     let n_runs = c.n_runs.clamp(1, 4) as u64;
-    let params = GaussianMixtureModel::<f64>::params_with_rng(k, Xoshiro256Plus::seed_from_u64(c.rng_seed))
-        .init_method(match c.init {
-            Init::KMeans => GmmInitMethod::KMeans,
-            Init::Random => GmmInitMethod::Random,
-        })
-        .reg_covariance(reg)
-        .tolerance(c.tol())
-        .n_runs(n_runs)
-        .max_n_iterations(max_iter);
-    let Some(res) = obs.call("fit", || params.fit(&dataset)) else {
+    let fitted = obs.call("fit", || {
+        if c.f32 {
+            fit_as::<f32>(c, b, k, max_iter, n_runs).map(|r| r.map(Model::F32))
+        } else {
+            fit_as::<f64>(c, b, k, max_iter, n_runs).map(|r| r.map(Model::F64))
+        }
+    })?;
+    let Some(res) = fitted else {
+        obs.skip("case_malformed");
         return None;
     };
     let forced_unconverged = max_iter == 1;
@@ -234,10 +378,7 @@ pub fn fit_model(c: &Case, b: &Built, obs: &mut Obs) -> Option<Fitted> {
     });
 
     // ---------------- (1) the model is a valid mixture
-    let w = model.weights().to_vec();
-    let means = to_mat2(&model.means().view());
-    let covs: Vec<Mat> = model.covariances().outer_iter().map(|m| to_mat2(&m)).collect();
-    let precs: Vec<Mat> = model.precisions().outer_iter().map(|m| to_mat2(&m)).collect();
+    let ModelParams { w, means, covs, precs, shapes } = model.params();
     let shape_ok = w.len() == k
         && means.len() == k
         && means.iter().all(|r| r.len() == p)
@@ -246,13 +387,7 @@ pub fn fit_model(c: &Case, b: &Built, obs: &mut Obs) -> Option<Fitted> {
         && precs.len() == k
         && precs.iter().all(|m| m.len() == p && m.iter().all(|r| r.len() == p));
     if !obs.ensure(shape_ok, "model:shape", || {
-        format!(
-            "n_clusters {k}, {p} features: weights {:?}, means {:?}, covariances {:?}, precisions {:?}",
-            model.weights().shape(),
-            model.means().shape(),
-            model.covariances().shape(),
-            model.precisions().shape()
-        )
+        format!("n_clusters {k}, {p} features: {shapes}")
     }) {
         return None;
     }
@@ -268,13 +403,13 @@ pub fn fit_model(c: &Case, b: &Built, obs: &mut Obs) -> Option<Fitted> {
 
     obs.ensure(w.iter().all(|v| *v > 0.0), "weights:not-positive", || format!("weights {:?}", w));
     let ws: f64 = w.iter().sum();
-    obs.ensure((ws - 1.0).abs() <= WEIGHT_SUM_TOL, "weights:sum-not-one", || {
+    obs.ensure((ws - 1.0).abs() <= tol.weight_sum, "weights:sum-not-one", || {
         format!("weights {:?} sum to {ws}", w)
     });
 
     for (ki, mu) in means.iter().enumerate() {
         for j in 0..p {
-            let slack = BOX_REL_TOL * b.lo[j].abs().max(b.hi[j].abs()).max(b.hi[j] - b.lo[j]);
+            let slack = tol.box_rel * b.lo[j].abs().max(b.hi[j].abs()).max(b.hi[j] - b.lo[j]);
             obs.ensure(
                 mu[j] >= b.lo[j] - slack && mu[j] <= b.hi[j] + slack,
                 "means:outside-bounding-box",
@@ -290,7 +425,7 @@ pub fn fit_model(c: &Case, b: &Built, obs: &mut Obs) -> Option<Fitted> {
         let mut sym_ok = true;
         for i in 0..p {
             for j in 0..i {
-                let lim = SYM_TOL * (cm[i][i].abs() * cm[j][j].abs()).sqrt();
+                let lim = tol.sym * (cm[i][i].abs() * cm[j][j].abs()).sqrt();
                 if (cm[i][j] - cm[j][i]).abs() > lim {
                     sym_ok = false;
                     obs.fail(
@@ -301,7 +436,7 @@ pub fn fit_model(c: &Case, b: &Built, obs: &mut Obs) -> Option<Fitted> {
             }
         }
         for i in 0..p {
-            obs.ensure(cm[i][i] >= reg * (1.0 - REG_REL_TOL), "cov:diagonal-below-regularisation", || {
+            obs.ensure(cm[i][i] >= reg * (1.0 - tol.reg_rel), "cov:diagonal-below-regularisation", || {
                 format!("component {ki}: C[{i}][{i}] = {} < reg_covar {reg}", cm[i][i])
             });
         }
@@ -319,11 +454,12 @@ pub fn fit_model(c: &Case, b: &Built, obs: &mut Obs) -> Option<Fitted> {
         let lmin = vals.last().copied().unwrap_or(f64::NAN);
         // covariance = weighted scatter (positive semi-definite) + reg_covar * I  =>  smallest eigenvalue >= reg_covar
         obs.ensure(
-            lmin >= reg * (1.0 - REG_REL_TOL) - REG_LMAX_SLACK * lmax,
+            lmin >= reg * (1.0 - tol.reg_rel) - tol.reg_lmax_slack * lmax,
             "cov:regularisation-not-included",
             || format!("component {ki}: smallest eigenvalue {lmin} of the covariance is below reg_covar {reg} (largest {lmax})"),
         );
         obs.class_if(lmin <= reg * 1.5, "cov_smallest_eigenvalue_is_regularisation");
+        obs.class_if(lmax < tol.eps, "cov_entries_below_float_epsilon");
         let rc = RefComp {
             lnw: w[ki].ln(),
             mu: means[ki].clone(),
@@ -336,7 +472,7 @@ pub fn fit_model(c: &Case, b: &Built, obs: &mut Obs) -> Option<Fitted> {
         obs.class_if(cond >= 1e4, "cov_cond_ge_1e4");
         obs.class_if(cond >= 1e8, "cov_cond_ge_1e8");
         if sym_ok && cond.is_finite() {
-            let lim = PREC_TOL * p as f64 * cond + PREC_TOL;
+            let lim = tol.prec * p as f64 * cond + tol.prec;
             let pc = matmul(&precs[ki], cm);
             let cp = matmul(cm, &precs[ki]);
             let mut worst = 0.0f64;
@@ -360,24 +496,24 @@ pub fn fit_model(c: &Case, b: &Built, obs: &mut Obs) -> Option<Fitted> {
         return None;
     }
 
-    Some(Fitted { model, refs, k, p })
+    Some(Fitted { model, tol, refs, k, p })
 }
 
 /// Obligation 2: `predict_proba` / `predict` on the given rows (one call each for the whole batch),
 /// every row judged against the reference posterior.
 pub fn judge_rows(obs: &mut Obs, f: &Fitted, queries: &[(Vec<f64>, Option<usize>)]) -> Option<RowOut> {
-    let (model, refs, k, p) = (&f.model, &f.refs, f.k, f.p);
+    let (model, refs, k, p, tol) = (&f.model, &f.refs, f.k, f.p, f.tol);
     let nq = queries.len();
-    let qflat: Vec<f64> = queries.iter().flat_map(|(x, _)| x.iter().copied()).collect();
-    let Ok(qx) = Array2::from_shape_vec((nq, p), qflat) else {
+    let qrows: Vec<&[f64]> = queries.iter().map(|(x, _)| x.as_slice()).collect();
+    if qrows.iter().any(|r| r.len() != p) {
         return None;
-    };
-    let proba = obs.call("predict_proba", || model.predict_proba(&qx));
-    let pred = obs.call("predict", || model.predict(&qx));
-    let proba_rows: Option<Mat> = proba.as_ref().map(|a| to_mat2(&a.view()));
+    }
+    let proba = obs.call("predict_proba", || model.predict_proba(&qrows, p)).flatten();
+    let pred = obs.call("predict", || model.predict(&qrows, p)).flatten();
+    let proba_rows: Option<Mat> = proba.as_ref().map(|a| a.1.clone());
     if let Some(pr) = &proba_rows {
         if !obs.ensure(pr.len() == nq && pr.iter().all(|r| r.len() == k), "proba:shape", || {
-            format!("predict_proba returned shape {:?} for {nq} rows and {k} components", proba.as_ref().map(|a| a.dim()))
+            format!("predict_proba returned shape {:?} for {nq} rows and {k} components", proba.as_ref().map(|a| a.0))
         }) {
             return None;
         }
@@ -425,7 +561,7 @@ pub fn judge_rows(obs: &mut Obs, f: &Fitted, queries: &[(Vec<f64>, Option<usize>
         let dwl: Vec<f64> = refs
             .iter()
             .zip(&m2)
-            .map(|(r, m)| LOGP_TOL * r.cond() * (m + p as f64))
+            .map(|(r, m)| tol.logp * r.cond() * (m + p as f64))
             .collect();
         let best = (0..k).fold(0usize, |bst, i| if wl[i] > wl[bst] { i } else { bst });
         all_wl.push(wl.clone());
@@ -456,7 +592,7 @@ pub fn judge_rows(obs: &mut Obs, f: &Fitted, queries: &[(Vec<f64>, Option<usize>
                 let nonneg = obs.ensure(g.iter().all(|v| *v >= 0.0), "proba:negative", || {
                     format!("predict_proba({:?}) = {:?}", x, g)
                 });
-                let sum_ok = (sum - 1.0).abs() <= ROW_SUM_TOL;
+                let sum_ok = (sum - 1.0).abs() <= tol.row_sum;
                 if !sum_ok {
                     if underflow {
                         obs.fail(
@@ -478,7 +614,7 @@ pub fn judge_rows(obs: &mut Obs, f: &Fitted, queries: &[(Vec<f64>, Option<usize>
             }
             // documented meaning of predict_proba: the responsibilities of the fitted mixture
             if row_valid && !underflow {
-                let slack: f64 = POSTERIOR_FLOOR + 2.0 * (0..k).map(|j| post[j] * dwl[j]).sum::<f64>();
+                let slack: f64 = tol.posterior_floor + 2.0 * (0..k).map(|j| post[j] * dwl[j]).sum::<f64>();
                 if slack < 1e-3 {
                     obs.class("posterior_compared");
                     let worst = (0..k).map(|j| (g[j] - post[j]).abs()).fold(0.0f64, f64::max);
@@ -497,7 +633,7 @@ pub fn judge_rows(obs: &mut Obs, f: &Fitted, queries: &[(Vec<f64>, Option<usize>
                 if obs.ensure(lab < k, "predict:label-out-of-range", || format!("predict({:?}) = {lab} with {k} components", x)) {
                     if finite {
                         let mx = g.iter().copied().fold(f64::NEG_INFINITY, f64::max);
-                        obs.ensure(g[lab] >= mx - ARGMAX_TOL, "predict:not-argmax-of-proba", || {
+                        obs.ensure(g[lab] >= mx - tol.argmax, "predict:not-argmax-of-proba", || {
                             format!("predict({:?}) = {lab} but predict_proba gives {:?}", x, g)
                         });
                     }
@@ -509,7 +645,7 @@ pub fn judge_rows(obs: &mut Obs, f: &Fitted, queries: &[(Vec<f64>, Option<usize>
             if lab < k {
                 // margin rule: judged only when the reference log-posterior separates the two components
                 let margin = wl[best] - wl[lab];
-                let lim = MARGIN_FLOOR + dwl[best] + dwl[lab];
+                let lim = tol.margin_floor + dwl[best] + dwl[lab];
                 if margin > lim {
                     if underflow {
                         obs.fail(
@@ -537,7 +673,7 @@ pub fn judge_rows(obs: &mut Obs, f: &Fitted, queries: &[(Vec<f64>, Option<usize>
     }
     Some(RowOut {
         far40,
-        labels: pred.map(|a| a.to_vec()),
+        labels: pred,
         proba: proba_rows,
         wl: all_wl,
         dwl: all_dwl,
